@@ -3,6 +3,7 @@ package props
 import (
 	"fmt"
 	"reflect"
+	"strings"
 	"sync"
 	"sync/atomic"
 	"time"
@@ -313,6 +314,50 @@ func c12(r *rep.Run) {
 	r.Cov["programs_completed"] = done
 	r.Cov["executions_with_two_or_more_op_events"] = multiOp
 
+	// compile-only: the decompiled program with and without events over a larger
+	// corpus (the optimiser must not see whether events are on)
+	{
+		dAlpha := &term.Alphabet{
+			Leaves: map[term.Ty][]*term.Term{B: {term.Var("b", B)}, I: {term.Var("n", I)}},
+			Ops: []term.OpSig{sig("and", B, B, B), sig("or", B, B, B, B), sig("not", B, B), sig("xor", B, B, B, B), sig("=", B, I, I), sig("+", I, I, I, I),
+				{Name: "if", Args: []term.Ty{B, B, B}, Ret: B, If: true}},
+		}
+		dMax := 9
+		if r.Thorough() {
+			dMax = 10
+		}
+		var big []*Prog
+		for _, p := range Programs(dAlpha, []term.Ty{B}, dMax) {
+			if p.Size > max && (strings.HasPrefix(p.Src, "(and") || strings.HasPrefix(p.Src, "(or")) {
+				big = append(big, p)
+			}
+		}
+		var cmp int64
+		r.ParallelFor(len(big), func(w, i int) {
+			p := big[i]
+			h := hs[w]
+			r.Note(w, p.Src)
+			for _, b := range []int{8, 15, 10} {
+				var texts [3]string
+				for ev := 0; ev < 3; ev++ {
+					o := drive.FromBits(b)
+					o.Events = ev
+					e, err := h.Compile(h.NewConfig(p.Vars, o), p.Src, 0)
+					if err != nil {
+						r.Violate("compile", p.Src, sprintf("program does not compile under %s: %v", o, err), nil)
+						return
+					}
+					drive.Fence(func() { texts[ev] = eval.Dump(e) })
+				}
+				atomic.AddInt64(&cmp, 2)
+				if texts[1] != texts[0] || texts[2] != texts[0] {
+					r.Violate("dump-changed", p.Src+drive.FromBits(b).String(), "enabling events changes the decompiled program", map[string]interface{}{"source": p.Src, "config": drive.FromBits(b).String(), "plain": texts[0], "report_event": texts[1], "debug": texts[2]})
+				}
+			}
+		})
+		r.Cov["dump_equality_only_programs"] = len(big)
+		r.Add(int64(len(big)), cmp, cmp, cmp, 0)
+	}
 	fmt.Printf("programs done at %.1fs\n", time.Since(r.Start).Seconds())
 	c12Scribble(r)
 	fmt.Printf("scribble done at %.1fs\n", time.Since(r.Start).Seconds())
